@@ -162,7 +162,11 @@ def _random_tracks(draw, ctx):
         if mask and draw(st.integers(0, 3)) == 0:
             lens = [draw(st.sampled_from([0, sus, thr, 1])) for _ in range(5)]
         items += G.render_note_items(tick, mask, lens if mask else sus, tap, forced)
-    return {"res": res, "items": items}
+    # the rule is about ticks, not time: tempo changes in the middle of the track must not matter
+    tempo = [[0, draw(st.sampled_from([120000, 60000, 250000, 1000]))]]
+    if draw(st.booleans()):
+        tempo.append([draw(st.integers(1, max(2, tick))), draw(st.sampled_from([30000, 480000, 120001]))])
+    return {"res": res, "items": items, "tempo": tempo}
 
 
 def strat_random(ctx: Ctx):
@@ -173,7 +177,7 @@ def check_random(ctx: Ctx, case) -> None:
     res, items = case["res"], case["items"]
     exp = expected_notes(res, items)
     lines = [S.track_line(it) for it in items]
-    chart, tr = T.parse_track(ctx, res, TEMPO, lines, HEADER, case)
+    chart, tr = T.parse_track(ctx, res, case.get("tempo", TEMPO), lines, HEADER, case)
     if tr is None:
         return
     T.compare_notes(ctx, tr, exp, case, {"ticks", "hopo"})
